@@ -87,6 +87,31 @@ func c14CrossTree(t *sgRun, envs []*sgEnv) {
 				if err != nil || proof.HashVerify(su, name, ti.p.Verifier(su, pval), pr2) != nil {
 					return "second honest proof of " + ti.name + " fails after both trees were used"
 				}
+				// ONE verifier value for several proofs: a second honest proof is accepted, and an altered copy of the
+				// first (its last response byte changed) is refused - by this verifier as by a fresh one
+				vr := ti.p.Verifier(su, pval)
+				if proof.HashVerify(su, name, vr, pri) != nil {
+					return "honest proof of " + ti.name + " rejected by a verifier value about to be reused"
+				}
+				if err := proof.HashVerify(su, name, vr, pr2); err != nil {
+					return "second honest proof of " + ti.name + " rejected by a verifier value that has verified another proof before: " + err.Error()
+				}
+				for _, pos := range []int{len(pri) - 1, len(pri) / 2, len(pri) - su.ScalarLen() - 1} {
+					if pos < 0 || pos >= len(pri) {
+						continue
+					}
+					alt := append([]byte{}, pri...)
+					alt[pos] ^= 0x01
+					fresh := proof.HashVerify(su, name, ti.p.Verifier(su, pval), alt) == nil
+					reused := proof.HashVerify(su, name, vr, alt) == nil
+					if reused != fresh {
+						return fmt.Sprintf("a proof of %s altered at byte %d: fresh verifier accepts=%v, reused verifier value accepts=%v", ti.name, pos, fresh, reused)
+					}
+				}
+				trunc := pri[:len(pri)-su.ScalarLen()]
+				if proof.HashVerify(su, name, vr, trunc) == nil {
+					return "a truncated proof of " + ti.name + " is accepted by a reused verifier value"
+				}
 				// a false statement (one public value moved) stays rejected
 				bad := map[string]kyber.Point{}
 				for k, v := range pval {
